@@ -8,7 +8,7 @@ use std::collections::BTreeSet;
 use shred::{ResourceId, World};
 
 pub const NWT: usize = 8;
-pub const NWD: usize = 3;
+pub const NWD: usize = 5;
 
 #[derive(Default)]
 pub struct Tracker {
@@ -397,7 +397,7 @@ macro_rules! with_wt {
 }
 
 pub fn wrid(t: u8, d: u8) -> ResourceId {
-    with_wt!(t, T, ResourceId::new_with_dynamic_id::<T>(crate::res::dyn_id(if d == 1 { 2 } else if d == 2 { 3 } else { d })))
+    with_wt!(t, T, ResourceId::new_with_dynamic_id::<T>(crate::res::dyn_id(match d { 1 => 2, 2 => 3, 3 => 4, 4 => 5, _ => d })))
 }
 
 pub fn wtype_id(t: u8) -> TypeId {
